@@ -20,21 +20,38 @@ def untraced():
         yield
 
 
+def fold(s, pred):
+    """AND of pred(ord(c)) over the characters of s, built with `&` so that a symbolic string
+    yields ONE symbolic boolean (Python's and/or/all would fork the path per character)."""
+    ok = True
+    for c in s:
+        ok = ok & pred(ord(c))
+    return ok
+
+
 def ascii_only(s, limit=128):
-    return all([ord(c) < limit for c in s])
+    return fold(s, lambda o: o < limit)
+
+
+def _not_lb(o):
+    return ((o < 10) | (o > 13)) & ((o < 28) | (o > 30)) & (o != 0x85) & (o != 0x2028) & (o != 0x2029)
 
 
 def lb_free(s):
-    """No character that str.splitlines() breaks on (written as ord ranges so a
-    symbolic character is not realised)."""
-    return not any([(10 <= ord(c) <= 13) or (28 <= ord(c) <= 30) or ord(c) == 0x85
-                    or ord(c) == 0x2028 or ord(c) == 0x2029 for c in s])
+    """No character that str.splitlines() breaks on."""
+    return fold(s, _not_lb)
 
 
 def none_of(s, chars):
-    """True when no character of s is one of `chars` (ord comparisons only)."""
+    """True when no character of s is one of `chars`."""
     codes = [ord(c) for c in chars]
-    return not any([any([ord(ch) == k for k in codes]) for ch in s])
+
+    def pred(o):
+        ok = True
+        for k in codes:
+            ok = ok & (o != k)
+        return ok
+    return fold(s, pred)
 
 
 def concretize(v):
@@ -44,3 +61,14 @@ def concretize(v):
         from crosshair.core import deep_realize
         return deep_realize(v)
     return v
+
+
+def str_eq(a, b):
+    """a == b decided with ONE solver fork for the contents (plus one on the lengths): the
+    built-in == of CrossHair's lazy strings forks per character."""
+    if len(a) != len(b):
+        return False
+    ok = True
+    for i in range(len(b)):
+        ok = ok & (ord(a[i]) == ord(b[i]))
+    return True if ok else False
